@@ -753,6 +753,22 @@ SEMANTIC_INVALID = [
     ("const_unknown_include_ref", "const i32 a = inc.b\n"),
     ("const_bad_name", "const i32 a = x.y.z.w\n"),
     ("const_bad_type", "const Nope a = 1\n"),
+    # witnesses of c11_validated_constants_fit_pinned_refuted (repaired: rejected), and their relatives
+    ("const_int_for_list", "const list<i32> x = 5\n"),
+    ("const_string_for_int", 'const i32 y = "hello"\n'),
+    ("const_nested_unknown_ref", "const list<i32> z = [nope]\n"),
+    ("const_int_for_struct", "struct S { 1: i32 a }\nconst S s = 5\n"),
+    ("const_struct_int_key", "struct S { 1: i32 a }\nconst S s = {1: 2}\n"),
+    ("const_struct_bad_field", 'struct S { 1: i32 a }\nconst S s = {"a": "x"}\n'),
+    ("const_enum_undeclared_number", "enum E { A = 1 }\nconst E e = 7\n"),
+    ("const_out_of_range", "const i8 b = 300\n"),
+    ("const_int_for_bool", "const bool b = 1\n"),
+    ("const_ref_wrong_kind", "const i32 a = 1\nconst string s = a\n"),
+    ("const_bad_map_value", 'const map<string, list<i32>> m = {"a": [1], "b": 2}\n'),
+    ("default_string_for_int", 'struct S { 1: i32 a = "x" }\n'),
+    ("default_int_for_list", "struct S { 1: list<i32> a = 5 }\n"),
+    ("default_unknown_ref", "struct S { 1: i32 a = nope }\n"),
+    ("default_arg_list_for_int", "service X { void f(1: i32 a = [1]) }\n"),
     ("wildcard_vendor_ns", 'namespace * foo (vendor="x")\n'),
     ("bad_return_type", "service X { Nope f() }\n"),
     ("bad_arg_type", "service X { void f(1: Nope a) }\n"),
